@@ -370,7 +370,9 @@ class Inst:
                 l, r = f.children()
                 for a, b, k in ((l, r, f.decl().kind()), (r, l, z3.Z3_OP_GE if f.decl().kind() == z3.Z3_OP_LE else z3.Z3_OP_LE)):
                     # b <= a  with b == 0  -> a is index-like
-                    if k == z3.Z3_OP_GE and z3.is_int_value(b) and b.as_long() == 0 and z3.is_int(a) and not z3.is_int_value(a) and z3.is_const(a):
+                    if k == z3.Z3_OP_GE and z3.is_int_value(b) and b.as_long() == 0 and z3.is_int(a) and not z3.is_int_value(a) and \
+                            (z3.is_const(a) or (z3.is_select(a) and z3.is_const(a.arg(0)) and z3.is_const(a.arg(1)) and not z3.is_int_value(a.arg(1)))):
+                        # a skolem index, or an element A[c] of an index array at a skolem position (e.g. a requested channel used as a column)
                         out[a.get_id()] = a
         for f in forms:
             visit(f)
@@ -381,6 +383,7 @@ class Inst:
         instances = {}
         forms = list(self.ground)
         self.idx_consts = self.index_constants(forms)
+        first_seen = {}
         for rnd in range(self.rounds):
             allf = forms + list(instances.values())
             reads, apps = self.ground_reads(allf + [q.body() for q in self.quants])
@@ -392,8 +395,9 @@ class Inst:
                 else:
                     class_reads.setdefault(find(rid), {}).update(d)
             new = 0
-            for q in self.quants:
-                nv = q.num_vars()
+            # cheap quantifiers first: when the global cap is hit, the ones left out are the quadratic pairwise facts, not the defining ones
+            plan = []
+            for qi, q in enumerate(self.quants):
                 cands = self.candidates(q, reads, apps, find, class_reads)
                 if any(not c for c in cands):
                     continue
@@ -401,10 +405,26 @@ class Inst:
                 total = 1
                 for l in lists:
                     total *= len(l)
+                plan.append((total, qi, q, lists))
+                for l in lists:
+                    for t in l:
+                        first_seen.setdefault(t.get_id(), rnd)
+            plan.sort(key=lambda x: (x[0], x[1]))
+            for total, qi, q, lists in plan:
+                nv = q.num_vars()
                 if total > MAX_INST_PER_Q:
-                    # keep the syntactically smallest candidates
-                    per = max(1, int(MAX_INST_PER_Q ** (1.0 / nv)))
-                    lists = [sorted(l, key=lambda t: len(str(t)))[:per] for l in lists]
+                    # too many combinations: half of the budget goes to the syntactically smallest candidates, half to the newest ones
+                    # (a chain of dependent facts needs the terms produced by the previous round, which are the largest)
+                    per = max(2, int(MAX_INST_PER_Q ** (1.0 / nv)))
+                    short = []
+                    for l in lists:
+                        by_size = sorted(l, key=lambda t: len(str(t)))
+                        keep = by_size[:(per + 1) // 2]
+                        ids = set(t.get_id() for t in keep)
+                        newest = sorted((t for t in l if t.get_id() not in ids), key=lambda t: (-first_seen.get(t.get_id(), 0), len(str(t))))
+                        keep += newest[:per - len(keep)]
+                        short.append(keep)
+                    lists = short
                 for combo in itertools.product(*lists):
                     key = (q.get_id(),) + tuple(t.get_id() for t in combo)
                     if key in instances:
